@@ -24,14 +24,18 @@ Local Open Scope N_scope.
 Definition U64MAX : N := 18446744073709551615.
 Definition wrap64 (a : N) : N := a mod 18446744073709551616.
 
-Inductive cop := CLookup | CForget (n : N).
-Inductive pcs := PIdle | L0 | L1 | L2 | L3 | L4 | F0 | F1 | F2.
+(* CRdp deliver: one READDIRPLUS entry for the file: do_lookup, then (add_entry says the entry did not fit)
+   the reference is given back: get_map_mut + forget_one(ino, 1) -- or it is kept (deliver = true, the
+   client now holds one more reference: same steps as a lookup) *)
+Inductive cop := CLookup | CForget (n : N) | CRdp (deliver : bool).
+Inductive pcs := PIdle | L0 | L1 | L2 | L3 | L4 | F0 | F1 | F2 | U0.
 
 Record thread := mkTh {
   pc : pcs;
   held : nat;            (* generation of the Arc<InodeData> the thread holds *)
   seen : N;              (* refcount value it loaded *)
-  arg : N;               (* count of the forget in progress *)
+  arg : N;               (* count of the forget in progress; during a lookup: count of the forget that follows it
+                            at once (readdirplus undo), 0 if none *)
   prog : list cop;       (* operations still to start *)
   done_ops : N           (* operations completed *)
 }.
@@ -45,7 +49,7 @@ Record cstate := mkC {
   (* ghost *)
   base : N;              (* references held before the run *)
   linc : N;              (* base + increments / insertions applied *)
-  ldone : N;             (* lookups that returned *)
+  ldone : N;             (* lookups applied: returned to the client, delivered by readdirplus, or about to be undone by it *)
   fdec : N;              (* references actually dropped by forgets *)
   fnom : N               (* sum of the counts of the forgets applied *)
 }.
@@ -60,6 +64,10 @@ Definition set_thr (s : cstate) (t : nat) (th : thread) : cstate :=
 Definition th_pc (th : thread) (p : pcs) : thread := mkTh p (held th) (seen th) (arg th) (prog th) (done_ops th).
 Definition th_done (th : thread) : thread := mkTh PIdle (held th) (seen th) (arg th) (prog th) (done_ops th + 1).
 
+(* after the lookup took its reference: the operation is complete, or (readdirplus undo) the closure goes on to
+   take the write lock again (U0: no yield point there) and forget_one *)
+Definition th_after_lookup (th : thread) : thread := if arg th =? 0 then th_done th else th_pc th U0.
+
 Definition is_none_nat (o : option nat) : bool := match o with None => true | Some _ => false end.
 
 (* one atomic step of thread t; None: not enabled (blocked on the lock, or finished) *)
@@ -71,6 +79,7 @@ Definition tstep (s : cstate) (t : nat) : option cstate :=
       | [] => None
       | CLookup :: r => Some (set_thr s t (mkTh L0 (held th) (seen th) 0 r (done_ops th)))
       | CForget n :: r => Some (set_thr s t (mkTh F0 (held th) (seen th) n r (done_ops th)))
+      | CRdp d :: r => Some (set_thr s t (mkTh L0 (held th) (seen th) (if d then 0 else 1) r (done_ops th)))
       end
   | L0 =>
       if is_none_nat (wl s) then
@@ -86,7 +95,7 @@ Definition tstep (s : cstate) (t : nat) : option cstate :=
   | L2 =>
       if rcs s (held th) =? seen th then
         Some (mkC (fupd (rcs s) (held th) (N.min (seen th + 1) U64MAX)) (ngen s) (cur s) (wl s)
-                  (fupd (thr s) t (th_done th)) (base s) (linc s + 1) (ldone s + 1) (fdec s) (fnom s))
+                  (fupd (thr s) t (th_after_lookup th)) (base s) (linc s + 1) (ldone s + 1) (fdec s) (fnom s))
       else Some (set_thr s t (th_pc th L0))
   | L3 =>
       if is_none_nat (wl s) then
@@ -97,12 +106,17 @@ Definition tstep (s : cstate) (t : nat) : option cstate :=
       match cur s with
       | Some g =>
           Some (mkC (fupd (rcs s) g (wrap64 (rcs s g + 1))) (ngen s) (cur s) None
-                    (fupd (thr s) t (th_done th)) (base s) (linc s + 1) (ldone s + 1) (fdec s) (fnom s))
+                    (fupd (thr s) t (th_after_lookup th)) (base s) (linc s + 1) (ldone s + 1) (fdec s) (fnom s))
       | None =>
           Some (mkC (fupd (rcs s) (ngen s) 1) (S (ngen s)) (Some (ngen s)) None
-                    (fupd (thr s) t (th_done th)) (base s) (linc s + 1) (ldone s + 1) (fdec s) (fnom s))
+                    (fupd (thr s) t (th_after_lookup th)) (base s) (linc s + 1) (ldone s + 1) (fdec s) (fnom s))
       end
   | F0 =>
+      if is_none_nat (wl s) then
+        Some (mkC (rcs s) (ngen s) (cur s) (Some t) (fupd (thr s) t (th_pc th F1))
+                  (base s) (linc s) (ldone s) (fdec s) (fnom s))
+      else None
+  | U0 =>
       if is_none_nat (wl s) then
         Some (mkC (rcs s) (ngen s) (cur s) (Some t) (fupd (thr s) t (th_pc th F1))
                   (base s) (linc s) (ldone s) (fdec s) (fnom s))
